@@ -42,6 +42,7 @@ def parseEv (t : String) : Option Ev :=
   match t.splitOn ":" with
   | ["RR", d] => (parseTags d).map .requestResponse
   | ["FNF", d] => (parseTags d).map .fireAndForget
+  | ["FNFD", s] => s.toNat?.map .fnfSent
   | ["MP", d] => (parseTags d).map .metadataPush
   | ["RS", d, n, s] => do pure (.requestStream (← parseTags d) (← n.toNat?) (← parseBool s))
   | ["RC", d, n, p, s] => do pure (.requestChannel (← parseTags d) (← n.toNat?) (← parseBool p) (← parseBool s))
